@@ -121,6 +121,55 @@ pub fn run_c18(tier: &str) -> Report {
     rep.sink.extend(vs);
     evals += 3 * wound.len() as u64;
     rep.set("wound_longitude_points", json!(wound.len()));
+    // tracks: chains of 9 queries advancing in short steps across each of the 30 face seams (three step
+    // sizes, both directions), each chain on one fresh thread, each query judged by the true argmin
+    let track_queries;
+    {
+        let mut chains: Vec<Vec<(f64, f64)>> = Vec::new();
+        for m in f.midpoints.iter() {
+            let mut cs: Vec<(f64, V3)> = f.centres.iter().map(|c| (rg::ang(*c, *m), *c)).collect();
+            cs.sort_by(|a, b| a.0.partial_cmp(&b.0).unwrap());
+            let (c1, c2) = (cs[0].1, cs[1].1);
+            let nrm = rg::unit(rg::sub(c2, c1));
+            let along = rg::unit(rg::cross(*m, nrm));
+            for t in [0.0, 0.12, -0.2] {
+                let p = rg::unit(rg::add(rg::scale(*m, f64::cos(t)), rg::scale(along, f64::sin(t))));
+                for step in [1e-9, 1e-6, 1e-3] {
+                    for dir in [1.0, -1.0] {
+                        chains.push((0..9).map(|k| rg::vec_to_ll(rg::unit(rg::add(p, rg::scale(nrm, dir * (k as f64 - 4.3) * step))))).collect());
+                    }
+                }
+            }
+        }
+        track_queries = 9 * chains.len() as u64;
+        let vs: Vec<Viol> = chains
+            .par_iter()
+            .flat_map(|ch| {
+                std::thread::scope(|sc| {
+                    sc.spawn(|| {
+                        let mut out = Vec::new();
+                        for &(lon, lat) in ch {
+                            let v = check_nearest(&f, lon, lat);
+                            if !v.is_empty() {
+                                out.extend(v.into_iter().map(|mut x| {
+                                    x.what = format!("{} [query of a chain advancing across a seam on one thread]", x.what);
+                                    x.case = json!({"kind": "chain", "points": ch.iter().map(|p| vec![p.0, p.1]).collect::<Vec<_>>()});
+                                    x
+                                }));
+                                break;
+                            }
+                        }
+                        out
+                    })
+                    .join()
+                    .unwrap()
+                })
+            })
+            .collect();
+        rep.sink.extend(vs.into_iter().take(6).collect::<Vec<_>>());
+        evals += 3 * track_queries;
+    }
+    rep.set("seam_track_queries", json!(track_queries));
     let hard = pts.iter().filter(|p| p.2 != "uniform").count() as u64;
     // --- relabelling: 12 faces x 5 quintants / segments
     let origins = a5::core::origin::get_origins();
@@ -485,6 +534,21 @@ pub fn run_c19(tier: &str) -> Report {
 pub fn replay_c18(case: &Value) -> Vec<Viol> {
     if case["kind"] == "lonlat" {
         return check_nearest(&rg::frame(), case["lon"].as_f64().unwrap(), case["lat"].as_f64().unwrap());
+    }
+    if case["kind"] == "chain" {
+        let pts: Vec<(f64, f64)> = case["points"].as_array().map(|a| a.iter().filter_map(|p| Some((p[0].as_f64()?, p[1].as_f64()?))).collect()).unwrap_or_default();
+        return std::thread::spawn(move || {
+            let f = rg::frame();
+            for (lon, lat) in pts {
+                let v = check_nearest(&f, lon, lat);
+                if !v.is_empty() {
+                    return v;
+                }
+            }
+            vec![]
+        })
+        .join()
+        .unwrap_or_default();
     }
     // relabelling cases: the whole (small) family is re-run and filtered by class
     let rep = run_c18("replay-relabel");
